@@ -54,7 +54,7 @@ def explore(run, items, maxlen, tag, invariant="ExactlyOne", max_per_prog=None, 
     hists = [[] for _ in items]
     from .tlc import extract_tuples
 
-    for v in extract_tuples(res.out, "H"):
+    for v in extract_tuples(res.out, 'H"'):
         hists[v[1] - 1].append(v[2])
     return res, hists
 
